@@ -393,6 +393,36 @@ def specKey (t : Trace) : Option String :=
 
 def spec (t : Trace) : Bool := (specKey t).isNone
 
+/-! ## Handler contract (outbound failures), checked dynamically on the real `Handler`
+
+The handler of a connection keeps the requests it was handed in FIFO order (`requested_outbound`);
+when the negotiation of an outbound stream fails (timeout / no common protocol / I/O error) while
+the connection stays open, it must report the corresponding failure event for the OLDEST of them
+(`on_dial_upgrade_error`: `requested_outbound.pop_front()`).  `HQ` tracks, per connection, the
+requests handed to its handler that have not completed — computed from a trace (of the model or
+of the implementation) by `hqAfter`. -/
+
+abbrev HQ := List (Peer × CId × List RId)
+
+def hqPush (q : HQ) (p : Peer) (c : CId) (ids : List RId) : HQ :=
+  if q.any (fun e => e.1 == p && e.2.1 == c) then
+    q.map fun e => if e.1 == p && e.2.1 == c then (e.1, e.2.1, e.2.2 ++ ids) else e
+  else q ++ [(p, c, ids)]
+
+def hqAfter (q : HQ) (op : Op) (o : Out) : HQ :=
+  let q1 : HQ := match op with
+    | .established p c => hqPush q p c o.pre
+    | .closed p c => if o.panic.isNone then q.filter (fun e => !(e.1 == p && e.2.1 == c)) else q
+    | .hOut p c id _ => q.map fun e => if e.1 == p && e.2.1 == c then (e.1, e.2.1, e.2.2.erase id) else e
+    | _ => q
+  o.evs.foldl (fun q e => match e with | .notify p c id => hqPush q p c [id] | _ => q) q1
+
+/-- the oldest request the handler of `(p, c)` holds -/
+def hqHead (q : HQ) (p : Peer) (c : CId) : Option RId :=
+  match q.find? (fun e => e.1 == p && e.2.1 == c) with
+  | some e => e.2.2.head?
+  | none => none
+
 /-- run the model, recording the trace (`ids`: inbound ids to sample, as the harness does) -/
 def samplePo (np : Nat) (s : St) : List (Peer × RId) :=
   (List.range np).flatMap fun p => ((List.range' 1 (s.nextId - 1)).filter (isPendingOut s p)).map fun id => (p, id)
